@@ -1,12 +1,14 @@
 #!/bin/bash
 # Build the framework offline from files on disk only.
-set -e
 cd "$(dirname "$0")"
 export CARGO_NET_OFFLINE=true
-for f in spec/*.tla; do
-  [ -f "$f" ] || continue
-  (cd spec && tla-sany "$(basename "$f")" >/dev/null) || { echo "SANY failed on $f"; exit 2; }
+fail=0
+for m in Wallet WalletProps MCWallet TraceWallet; do
+  (cd spec && tla-sany "$m.tla" >/dev/null 2>&1) || { echo "SANY failed on $m"; fail=1; }
 done
-cp /repo/Cargo.lock harness/Cargo.lock.repo 2>/dev/null || true
-(cd harness && cargo build --offline 2>&1 | tail -3)
-echo "setup ok"
+(cd harness && cargo build --offline --lib --bin replay_wallet 2>&1 | tail -2) || fail=1
+# the other replay binaries are (re)built by their own checks; pre-build them here to
+# warm the cache, a failure of one of them must not block the others
+(cd harness && cargo build --offline 2>&1 | tail -1) || true
+[ $fail = 0 ] && echo "setup ok"
+exit $fail
